@@ -47,7 +47,10 @@ fn compare<'a, E: EndianParse>(mk: impl Fn() -> NoteIterator<'a, E>, data: &'a [
                 obs.count("build_id", 1);
             }
             Note::Unknown(a) => {
-                if gnu && (r.n_type == 1 || r.n_type == 3) {
+                // a "GNU" type-1 record with a descriptor shorter than 16 bytes is outside the statement: yielding it
+                // untyped with its exact bytes (checked below) is as faithful as ending the iteration there
+                let short_tag = gnu && r.n_type == 1 && desc.len() < 16;
+                if gnu && (r.n_type == 1 || r.n_type == 3) && !short_tag {
                     return Err(format!("{}: GNU note of type {} returned untyped", ctx(k), r.n_type));
                 }
                 if a.n_type != r.n_type as u64 || a.name != name || a.desc != desc || !in_place(a.name, r.name) || !in_place(a.desc, r.desc) {
